@@ -27,14 +27,21 @@ impl Paths {
     }
 
     fn kern_ir_file(dir: &Path, location: &NormalizedLocation) -> PathBuf {
-        let filename = "kern_".to_string()
+        // Every distinct location needs its own file. `{}` prints the shortest text that parses
+        // back to the same f64, so two different coordinates never print alike (`{:.2}` sent
+        // e.g. 0.9967 and 1.0 both to "1.00"). Axis tags may contain any printable ASCII,
+        // '/' included, so the whole name goes through string_to_filename like glyph names do.
+        let name = "kern_".to_string()
             + &location
                 .iter()
-                .map(|(tag, pos)| format!("{tag}_{:.2}", pos.to_f64()))
+                .map(|(tag, pos)| {
+                    // -0.0 == 0.0 as a coordinate; print both as "0"
+                    let pos = pos.to_f64() + 0.0;
+                    format!("{tag}_{pos}")
+                })
                 .collect::<Vec<_>>()
-                .join("_")
-            + ".yml";
-        dir.join(filename)
+                .join("_");
+        dir.join(string_to_filename(&name, ".yml"))
     }
 
     pub fn target_file(dir: &Path, id: &WorkId) -> PathBuf {
